@@ -1828,9 +1828,17 @@ TIE_PLACEMENT2 = ["TiePlacement." + t for t in (
     "expand_to_fit_range_eq mark_area_as_eq row_is_occupied_eq column_is_occupied_eq record_grid_placement_eq "
     "forM_known get_known_child_positions_eq OO_swap OO_impliedPositive OO_estRest estimateAxis_split "
     "compute_grid_size_estimate_eq phase1_step_eq phase2_step_eq phase4_step_eq estimate_then_matrix_eq").split()]
+# third part (task V, goal 3): place_grid_items. The generated function keeps the lazy order of the adaptor chain
+# `filter(p).map(to_origin_zero).for_each(place; record)`; place_grid_items_eq = the model in that order (placeGridItemsL, foldL), for all
+# arguments; placeGridItemsL_okEq / place_grid_items_ok_iff / place_grid_items_isOk relate it to GridPlacement.placeGridItems (which converts a
+# whole phase first): same .ok results, fail together; lazy_eager_failure_witness: the failure reported can differ
+TIE_PLACEMENT3 = ["TiePlacement." + t for t in (
+    "forM_foldL phase2_step_eq' phase4_step_eq' place_grid_items_eq OkEq.isOk OkEq.bind okEq_fold okEq_bind_fold phase1_foldO phase2_foldO "
+    "phase4_foldO placeGridItemsL_okEq place_grid_items_ok_iff place_grid_items_isOk lazy_eager_failure_witness").split()]
 for _pid in ("C08", "C03"):
     _add_tie(_pid, "TaffyVerif.Props.TiePlacement", TIE_PLACEMENT)
     _add_tie(_pid, "TaffyVerif.Props.TiePlacement2", TIE_PLACEMENT2)
+    _add_tie(_pid, "TaffyVerif.Props.TiePlacement3", TIE_PLACEMENT3)
     PROPS[_pid]["trusted_base"] = list(PROPS[_pid].get("trusted_base", [])) + [TIE_PLACEMENT_TRUSTED]
 
 HOOK_COMMITS = [
